@@ -2254,6 +2254,12 @@ def _classify(kind: str, pass_name: str, model: onnx.ModelProto, fail: dict) -> 
     if base in ("DeduplicateInitializersPass", "DeduplicateHashedInitializersPass") and kind == "eval-diff" \
             and _has_string_nul_twins(model):
         return "string-nul-padding"
+    if base == "CommonSubexpressionEliminationPass" and kind in ("eval-diff", "eval-raise") and sum(
+        1 for _o, nodes in _node_lists(model) for n in nodes if n.op_type == "Constant" and any(
+            a.name == "value" and a.t.data_type == TP.STRING for a in n.attribute)) >= 2:
+        # the key of a string-tensor attribute is built from object addresses (D55): address reuse merges
+        # different constants, not deterministically
+        return "string-tensor-constants"
     if base == "CommonSubexpressionEliminationPass" and kind == "eval-diff" and _has_signed_zero_twins(model):
         return "float-signed-zero"
     if base == "LiftConstantsToInitializersPass" and any(
